@@ -3,4 +3,4 @@
 import PahoProofs.Properties.C14
 import PahoProofs.Properties.C01
 import PahoProofs.Properties.C07Mid
-import PahoProofs.Properties.FnEquiv
+import PahoProofs.Properties.FnMid
